@@ -11,12 +11,15 @@ CFG = dict(
           "operation), C07_no_orphan_partial (Q: with the read loop at its Read everything delivered has been read). C07_recv_strict: a "
           "stream whose loop was still running when its context ended ends, in every quiescent state of every continuation, with the Canceled / "
           "DeadlineExceeded status (or the outcome of a terminal envelope taken in the race, or the metadata abort) and never with 'respChan "
-          "closed' / the connection error (true since fix 72f38d7 of D-07s). Findings: "
+          "closed' / the connection error (true since fix 72f38d7 of D-07s). End to end on Model/Sys.v (client x server x two FIFO wires): C07_sys / C07_sys_quiescent (a stream done with the context status, no trailer, not "
+          "aborted, has exactly one reset on the client-to-server wire, and once the server has read everything - in particular in every quiescent "
+          "system state whose server read loop is at its Read - every registered handler of that id has a done context; from C07_status_reset, the "
+          "shape invariant of the written log, sy's wire invariant and C07_last_reset_cancels on Server.v). Findings: "
           "reset-behind-backpressure (no_orphan fails while a non-reading handler's full queue holds the read loop). Both models are tied "
           "lock-step to the real code (client: every run of this check, all orders of internal rules; server: ./check SV).",
     props="Props/C07.v",
     theorems=["C07_caller_unblocked", "C07_after_done", "C07_reset_once", "C07_reset_owner", "C07_status_reset", "C07_reset_cancels",
-              "C07_handler_unblocks", "C07_no_orphan_partial", "C07_recv_strict"],
+              "C07_handler_unblocks", "C07_no_orphan_partial", "C07_recv_strict", "C07_last_reset_cancels", "C07_sys", "C07_sys_quiescent"],
     imports=["Model.Client", "Check.ClientC", "Model.Protocol", "Check.CwC", "Check.C07c"],
     case_type="cwcase", find_bad_from="find_bad_from", go_tags="cw",
     rigs=[dict(test="TestC07", timeout_quick=600, timeout_thorough=2400)],
